@@ -365,23 +365,23 @@ def view_walk(c, p, is_mapping, rng, rec, fail, present):
         kind = rng.random()
         if kind < 0.7:
             i = rng.randint(-n - 1, n)
-            what = '%s(*%r)[%d]' % (meth, args, i)
+            what = '%s(*%s)[%d]' % (meth, brief(args), i)
 
             def f(v, i=i):
                 return v[i]
         elif kind < 0.9:
             i, j = rng.randint(-n, n), rng.randint(-n, n)
-            what = '%s(*%r)[%d:%d]' % (meth, args, i, j)
+            what = '%s(*%s)[%d:%d]' % (meth, brief(args), i, j)
 
             def f(v, i=i, j=j):
                 return list(v[i:j])
         elif kind < 0.95:
-            what = 'len(%s(*%r))' % (meth, args)
+            what = 'len(%s(*%s))' % (meth, brief(args))
 
             def f(v):
                 return len(v)
         else:
-            what = 'bool/list(%s(*%r))' % (meth, args)
+            what = 'bool/list(%s(*%s))' % (meth, brief(args))
 
             def f(v):
                 return (bool(v), [x for x in v])
@@ -552,7 +552,7 @@ def run_history(fam, kind, rng, rec, h, pal):
         if op == 'iand':
             iand_seen = True
         log.append((op, args))
-        rec.journal(repr((desc, log[-30:])))
+        rec.journal(harness.safe_repr((desc, log[-30:])))
         try:
             ca = tuple(gen.materialize(a, fam, 'c', c, False) for a in args)
             pa = tuple(gen.materialize(a, fam, 'py', p, False) for a in args)
